@@ -55,6 +55,40 @@ structure Fresh (a : Arena) (b newBase nc : Nat) : Prop where
   old : newBase = (a.bufAt b).base ∨ (a.bufAt b).base = 0 ∨
       newBase + nc ≤ (a.bufAt b).base ∨ (a.bufAt b).base + (a.bufAt b).cap ≤ newBase
 
+/-- the capacity `_yr_arena_allocate_memory` works with (the always-move hook pretends the buffer is full) -/
+def effCap (cfg : Cfg) (a : Arena) (b size : Nat) : Nat :=
+  if cfg.alwaysMove ∧ (a.bufAt b).base ≠ 0 ∧ size > 0 then (a.bufAt b).data.length else (a.bufAt b).cap
+
+/-- the request makes buffer `b` grow -/
+def Grows (cfg : Cfg) (a : Arena) (b size : Nat) : Prop := effCap cfg a b size - (a.bufAt b).data.length < size
+
+/-- the allocator's answer `newBase` is admissible for this request (it is only looked at if the buffer grows) -/
+def AllocFresh (cfg : Cfg) (newBase : Nat) (a : Arena) (b size : Nat) : Prop :=
+  Grows cfg a b size → Fresh a b newBase (newCap a.init (effCap cfg a b size) (a.bufAt b).data.length size)
+
+/-- an allocation request: `yr_arena_write_data(b, fill)` or, with `zero`, an allocation of zeroed memory -/
+structure Req where
+  b : Nat
+  zero : Bool
+  fill : Bytes
+
+/-- a sequence of allocations; the i-th one gets the i-th answer of the allocator -/
+def runAllocs (cfg : Cfg) : List Nat → Arena → List Req → Except Err Arena
+  | _, a, [] => .ok a
+  | [], _, _ :: _ => .error .invalidArgument
+  | nb :: nbs, a, q :: qs =>
+    match allocMem cfg nb a q.b q.zero q.fill with
+    | .ok (a1, _) => runAllocs cfg nbs a1 qs
+    | .error e => .error e
+
+/-- every answer of the allocator along the run is admissible (`AllocFresh`) and buffers stay below 4 GB -/
+def Admissible (cfg : Cfg) : List Nat → Arena → List Req → Prop
+  | _, _, [] => True
+  | [], _, _ :: _ => False
+  | nb :: nbs, a, q :: qs =>
+    AllocFresh cfg nb a q.b q.fill.length ∧ (a.bufAt q.b).data.length + q.fill.length < 2 ^ 32 ∧
+      ∀ a1 r, allocMem cfg nb a q.b q.zero q.fill = .ok (a1, r) → Admissible cfg nbs a1 qs
+
 instance (bufs : List Buf) (v : Nat) : Decidable (ValidPtr bufs v) := by unfold ValidPtr; exact inferInstance
 instance (b c : Buf) : Decidable (Apart b c) := by unfold Apart; exact inferInstance
 instance (r s : Ref) : Decidable (NoOverlap r s) := by unfold NoOverlap; exact inferInstance
